@@ -421,6 +421,21 @@ def tagread(run, fx):
                              % (lens[0], lens[1], sorted(acc), sorted(want)), None)
             else:
                 run.held('TAGREAD', inst, where, 'length %s %d -> bytes %s' % (lens[0], lens[1], sorted(acc)))
+    # what is returned is the accumulated tag itself: every return hands back the variable the bytes were or-ed into (or the
+    # constant 0 before anything was read), not a value some function made of it (zeropad(res) turns 'abc ' into 'abc\\0')
+    rets = [e for _, e in fn.elements() if e['k'] == 'ReturnStmt' and e.get('c')]
+    for rn_, r in enumerate(rets):
+        x = fn.strip_all_casts(fn.deref(r['c'][0]))
+        ok = (x['k'] == 'DeclRefExpr' and res_vid is not None and x.get('vid') == res_vid) or x.get('v') == 0
+        if ok:
+            run.held('TAGREAD', 'result is the accumulated tag (return #%d)' % rn_, fn.loc(r), 'returns %s' % fn.render(x), False)
+        elif any(y['k'] in ('CallExpr', 'CXXMemberCallExpr') for y in fn.walk(r['c'][0])) or x['k'] in ('BinaryOperator', 'ConditionalOperator', 'UnaryOperator'):
+            run.violated('TAGREAD', 'result is the accumulated tag (return #%d)' % rn_, fn.loc(r), 'gr_str_to_tag returns %s, not the tag it assembled from the string bytes: the result is no '
+                         'longer "the first min(4, length) characters, zero padded" for every string (a space in the fourth position, for example)' % fn.render(fn.N(r['c'][0])))
+        else:
+            run.broken('TAGREAD', 'result is the accumulated tag (return #%d)' % rn_, 'returned expression %s not classified' % fn.render(fn.N(r['c'][0])), fn.loc(r))
+    if not rets:
+        run.broken('TAGREAD', 'result is the accumulated tag', 'no return statement found', fn.where())
     # lengths > 4 with a min selector never exceed C: fine.  With 'strlen' selector lengths > 4 go to default.
     if kind == 'strlen':
         run.violated('TAGREAD', 'accumulate | selector>4', fn.where(),
